@@ -234,6 +234,17 @@ func c16E2E(c C16Case, r evid.Result) evid.Result {
 	err := cmd.ExecuteContext(context.Background())
 	after := time.Now()
 	rep := d.Done()
+	// A malformed value must stop the command: through the flag layer as well as in the parsers.
+	if _, _, _, rangeErr, stepErr := c16Ref(c, before.UnixNano()); rangeErr || stepErr {
+		r.Class(true, "e2e-malformed")
+		if err == nil {
+			r.Violation = evid.Viol("C16/e2e-malformed-accepted", "docker logql query %q ran (%d ContainerLogs calls) although a value is malformed", args, len(rep.Calls))
+		}
+		return r
+	}
+	if c.Step.Set && c.Step.Tiny && err != nil {
+		return r
+	}
 	if err != nil {
 		r.Violation = evid.Viol("C16/e2e-error", "docker logql query %v failed: %v", args, err)
 		return r
@@ -369,7 +380,12 @@ func c16GenPromDuration(t *rapid.T, label string, maxNs int64) C16Flag {
 }
 
 func c16BadDuration(t *rapid.T, label string) C16Flag {
-	text := rapid.SampledFrom([]string{"abc", "5x", "1m1h", "-5m", "1.5h", "m", "5 m", "1h 30m", "1hh", "5min"}).Draw(t, label+"-bad")
+	// A flag given without a value (an unset shell variable) is the malformed spelling most
+	// likely to be met.
+	if rapid.IntRange(0, 3).Draw(t, label+"-empty") == 0 {
+		return C16Flag{Set: true, Text: ""}
+	}
+	text := rapid.SampledFrom([]string{"abc", "5x", "1m1h", "-5m", "1.5h", "m", "5 m", "1h 30m", "1hh", "5min", "", " ", "s"}).Draw(t, label+"-bad")
 	return C16Flag{Set: true, Text: text}
 }
 
@@ -466,13 +482,14 @@ func c16GenE2E(t *rapid.T) C16Case {
 		c := c16Gen(t)
 		c.E2E = true
 		c.Now = 0
-		ok := true
+		// Malformed values go through the command as well.
+		bad := 0
 		for _, f := range []C16Flag{c.Start, c.End, c.Since, c.Step} {
-			if f.Set && !f.Valid {
-				ok = false
+			if f.Set && !f.Valid && !f.Tiny {
+				bad++
 			}
 		}
-		if ok {
+		if bad <= 1 {
 			return c
 		}
 	}
